@@ -68,7 +68,11 @@ def two_clocks(rng):
 def gen_case(rng, ctx):
     L = rng.choice(ctx.langs)
     months, days = ctx.info[L]
-    d = dt.datetime(rng.randrange(1990, 2040), rng.randrange(1, 13), rng.randrange(1, 29), rng.randrange(24), rng.randrange(60))
+    import calendar as _cal
+
+    y_, m_ = rng.randrange(1990, 2040), rng.randrange(1, 13)
+    last_ = _cal.monthrange(y_, m_)[1]
+    d = dt.datetime(y_, m_, rng.choice([rng.randrange(1, 29), rng.randrange(1, last_ + 1), last_, last_]), rng.randrange(24), rng.randrange(60))
     kind = rng.choice(["words", "words", "words", "numeric", "format", "format", "timestamp"])
     present = []
     fmts = None
@@ -369,8 +373,9 @@ def eval_case(case):
                 pv = {getattr(v, part) for v in nonnull}
                 if len(pv) > 1:
                     problems.append(("R3-required-part-depends-on-reference", name + ":" + part, "%s values %s" % (part, sorted(pv))))
-            if nonnull and len(nonnull) < len(oks):
-                problems.append(("R3-noneness-depends-on-reference", name, "some worlds None, others %s" % nonnull[0]))
+            # (whether a REQUIRE_PARTS result exists at all may depend on the reference: the parts that are
+            # NOT required are completed from it, and "31" cannot be completed in a 30-day reference month;
+            # the statement only says that a result needs the required parts to be stated)
     # R0: a result only if the string itself states the demanded parts.  The generator knows which
     # date tokens it wrote; judged only where no other reading can supply the part: single-reading
     # pipelines, and a part counts as "cannot be stated" only if no token could possibly carry it.
